@@ -39,6 +39,25 @@ def arrconst_item(line):
         ty = "Box<GenericArray<u64, U3>>" if box else "GenericArray<u64, U3>"
         return ("pub fn check() -> bool {\n    use generic_array::box_arr;\n    #[allow(non_upper_case_globals, unused_variables, dead_code)]\n    %s\n"
                 "    let a: %s = %s;\n    a.as_slice() == &[7u64; 3]\n}") % (decl, ty, inv)
+    if kv.get("op") == "noncopy":
+        # what the native repeat expression `[x; n]` accepts, the repeat forms accept: a const item of any type as the
+        # operand (any n, also in const positions), and any value for n <= 1 (it is moved, or dropped for n = 0)
+        n = int(kv["n"])
+        box = kv.get("box") == "1"
+        mac = "box_arr" if box else "arr"
+        ln = tn(n) if form == "repty" else str(n)
+        if kv["operand"] == "constitem":
+            ty = "GenericArray<Vec<u8>, %s>" % tn(n)
+            inv = "%s![EMPTY; %s]" % (mac, ln)
+            if pos in ("const", "static") and not box:
+                return ("const EMPTY: Vec<u8> = Vec::new();\n%s A: %s = %s;\n"
+                        "pub fn check() -> bool { A.len() == %d && A.iter().all(|v| v.is_empty()) }") % (pos, ty, inv, n)
+            return ("pub fn check() -> bool {\n    use generic_array::box_arr;\n    const EMPTY: Vec<u8> = Vec::new();\n"
+                    "    let a = %s;\n    let b: &%s = &a;\n    b.len() == %d && b.iter().all(|v| v.is_empty())\n}") % (inv, ty, n)
+        ty = "GenericArray<String, %s>" % tn(n)
+        inv = "%s![String::from(\"x\"); %s]" % (mac, ln)
+        return ("pub fn check() -> bool {\n    use generic_array::box_arr;\n    let a = %s;\n    let b: &%s = &a;\n"
+                "    b.len() == %d && b.iter().all(|v| v == \"x\")\n}") % (inv, ty, n)
     if form == "list":
         k, tr = int(kv["k"]), int(kv.get("trail", 0))
         body = ", ".join("%du64" % (1000 + 7 * i) for i in range(k)) + "," * tr
@@ -385,8 +404,15 @@ ELEMS = {
 TRAITS = {"send": ("Send", 0), "sync": ("Sync", 1), "copy": ("Copy", 2), "clone": ("Clone", 3)}
 
 
+GENERIC_N = 9999
+
+
 def auto_program(trait, target, elem, n):
     T = ELEMS[elem][0]
+    if n == GENERIC_N:
+        # the length is a type parameter: the verdict may depend on the element type only
+        ty = {"array": "GenericArray<%s, N>" % T, "ref": "&'static GenericArray<%s, N>" % T, "iter": "GenericArrayIter<%s, N>" % T}[target]
+        return "pub struct NoClone(u8);\nfn need<X: %s>() {}\npub fn f<N: ArrayLength>() { need::<%s>(); }" % (TRAITS[trait][0], ty)
     ty = {"array": "GenericArray<%s, U%d>" % (T, n), "ref": "&'static GenericArray<%s, U%d>" % (T, n),
           "iter": "GenericArrayIter<%s, U%d>" % (T, n)}[target]
     return "pub struct NoClone(u8);\nfn need<X: %s>() {}\npub fn f() { need::<%s>(); }" % (TRAITS[trait][0], ty)
@@ -528,6 +554,7 @@ FILL_TYS = {
     "u8": ("u8", "0u8"), "u64": ("u64", "0u64"), "b3": ("[u8; 3]", "[0u8; 3]"),
     "slot": ("Slot", "Slot { id: 7, wiped: false, secret: 0x1234 }"),
     "p2": ("P2", "P2 { a: 0x11, b: 0x22 }"),
+    "w1": ("W1", "W1(0x33)"),
     "nest": ("GenericArray<Slot, U3>", None),
 }
 FILL_PRELUDE = """use const_default::ConstDefault;
@@ -537,6 +564,9 @@ impl ConstDefault for Slot { const DEFAULT: Self = Slot { id: 7, wiped: false, s
 #[derive(Clone, Copy, Debug, PartialEq)]
 pub struct P2 { a: u8, b: u8 }
 impl ConstDefault for P2 { const DEFAULT: Self = P2 { a: 0x11, b: 0x22 }; }
+#[derive(Clone, Copy, Debug, PartialEq)]
+pub struct W1(u8);
+impl ConstDefault for W1 { const DEFAULT: Self = W1(0x33); }
 """
 
 
